@@ -36,8 +36,8 @@ def hasSub (needle : Bytes) : Bytes → Bool
 def projectedProtos (c : Config) (pkts : List Packet) : List Nat :=
   pkts.flatMap fun p =>
     match p with
-    | .v9 _ ss => (v9DataRecs ss).filterMap fun r => (Preds.firstField r c.t.commonV9.proto).bind (Preds.protoNumOf c.t)
-    | .ipfix _ ss => (Preds.regroup (ipDataRecs ss) []).filterMap fun r => (Preds.firstField r c.t.commonIp.proto).bind (Preds.protoNumOf c.t)
+    | .v9 _ ss => (v9DataRecs ss).flatMap fun r => (Preds.fieldsOf r c.t.commonV9.proto).filterMap (Preds.protoNumOf c.t)
+    | .ipfix _ ss => (Preds.regroup (ipDataRecs ss) []).flatMap fun r => (Preds.fieldsOf r c.t.commonIp.proto).filterMap (Preds.protoNumOf c.t)
     | _ => []
 
 /-- classes visible in what was decoded -/
@@ -71,7 +71,8 @@ def outputClasses (c : Config) (pkts : List Packet) : List String :=
       | _ => false) then ["ipfix-dropped-sets"] else []) ++
   -- common view: a projected field is present but decoded with a kind the converter does not accept
   (let rejected (k : CommonKeys) (r : Rec) : Bool :=
-     let bad (key : Nat) (ok : FieldValue → Bool) : Bool := match Preds.firstField r key with | some v => !ok v | none => false
+     -- every field of the record with that key counts (a record may define a key twice: the choice among them is open, C13c)
+     let bad (key : Nat) (ok : FieldValue → Bool) : Bool := (Preds.fieldsOf r key).any fun v => !ok v
      bad k.sport (fun v => (asU16 v).isSome) || bad k.dport (fun v => (asU16 v).isSome) ||
      bad k.proto (fun v => (asU8 v).isSome) || bad k.first (fun v => (asU32 v).isSome) || bad k.last (fun v => (asU32 v).isSome) ||
      bad k.smac (fun v => (asString v).isSome) || bad k.dmac (fun v => (asString v).isSome) ||
